@@ -3,7 +3,7 @@ from .. import inpkg
 
 
 def run(ctx, test="^TestVerifC35$", what="packet framing"):
-    n = 4000 if ctx.tier == "quick" else 250000
+    n = 4000 if ctx.tier == "quick" else 48000
     ctx.cov["rule"] = ("each case = two PacketConns over a harness byte pipe that re-segments reads (chunk sets {1},{2},{3},{7},{16},{17},mixed,random<=4096), "
                        "handshake (unencrypted / AES with key on both sides, protocol versions 0-2, random buffer sizes), 1-9 packets of sizes "
                        "0,4,1-20,~4096,60-70k,~1 MiB,random written through WritePacket / WritePacket2 / NoFlush / header-body-trailer API; in 2/3 of the cases "
